@@ -106,10 +106,10 @@ pub fn ip4_options() -> impl Strategy<Value = Hex> {
 /// padding, TCP Fast Open cookie, MD5 signature, an unknown kind), padded to a multiple of 4
 pub fn tcp_options() -> impl Strategy<Value = Hex> {
     let one = prop_oneof![
-        3 => any::<u16>().prop_map(|m| vec![2u8, 4, (m >> 8) as u8, m as u8]),
-        2 => (0u8..15).prop_map(|w| vec![3u8, 3, w]),
+        3 => prop_oneof![2 => prop::sample::select(vec![0u16, 1, 536, 1220, 1460, 8960, 65535]), 1 => any::<u16>()].prop_map(|m| vec![2u8, 4, (m >> 8) as u8, m as u8]),
+        2 => prop_oneof![3 => 0u8..15, 1 => prop::sample::select(vec![14u8, 15, 255])].prop_map(|w| vec![3u8, 3, w]),
         2 => Just(vec![4u8, 2]),
-        3 => any::<[u8; 8]>().prop_map(|t| { let mut v = vec![8u8, 10]; v.extend_from_slice(&t); v }),
+        3 => prop_oneof![2 => any::<[u8; 8]>(), 1 => Just([0u8; 8]), 1 => Just([0xffu8; 8])].prop_map(|t| { let mut v = vec![8u8, 10]; v.extend_from_slice(&t); v }),
         2 => Just(vec![1u8]),
         1 => any::<[u8; 8]>().prop_map(|t| { let mut v = vec![34u8, 10]; v.extend_from_slice(&t); v }),
         1 => any::<[u8; 16]>().prop_map(|t| { let mut v = vec![19u8, 18]; v.extend_from_slice(&t); v }),
